@@ -127,9 +127,40 @@ Lemma ru_threads_recv_sequence :
     r = expected (fst (spec_events sep keep_end dec (stream_of o))) j.
 Proof.
   intros P sep limit keep_end dec bufsize Hs Hb o na nb sch j r HG H.
-  exact (threads_recv_sequence_rel _ (copy_machine_progress _ bufsize Hb) _ _ _ _
+  exact (threads_recv_sequence_rel _ _ _ _ _
            (ru_consumer_ok_rel sep limit keep_end dec bufsize Hs Hb) _ (ru_R_init sep limit keep_end dec Hs)
            o na nb sch j r HG H).
+Qed.
+
+Lemma bru_threads_recv_sequence :
+  forall (P : Type) (sep : bytes) (limit : nat) (keep_end : bool) (dec : decoder P) (sizehint : nat),
+    sep <> [] -> length sep + 1 <= limit ->
+  forall (o : oracle) (na nb : nat) (sch : list bool) (j : nat) (r : rres P),
+    safe sep (limit - 1 - length sep) (stream_of o) ->
+    nth_error (delivered (map snd (rev (t_log (trun (buf_machine (bru_framer sep limit keep_end dec) sizehint)
+                                               (tinit (bcinit (bru_framer sep limit keep_end dec)) o na nb) sch))))) j = Some r ->
+    r = expected (fst (spec_events sep keep_end dec (stream_of o))) j.
+Proof.
+  intros P sep limit keep_end dec sizehint Hs Hl o na nb sch j r HG H.
+  exact (threads_recv_sequence_rel _ _ _ _ _
+           (bru_consumer_ok_rel sep limit keep_end dec sizehint Hs Hl) _ (bru_R_init sep limit keep_end dec Hs)
+           o na nb sch j r HG H).
+Qed.
+
+Lemma bru_lock_serialises :
+  forall (P : Type) (sep : bytes) (limit : nat) (keep_end : bool) (dec : decoder P) (sizehint : nat),
+    sep <> [] -> length sep + 1 <= limit ->
+  forall (o : oracle) (na nb : nat) (sch : list bool),
+    safe sep (limit - 1 - length sep) (stream_of o) ->
+    let M := buf_machine (bru_framer sep limit keep_end dec) sizehint in
+    let s := trun M (tinit (bcinit (bru_framer sep limit keep_end dec)) o na nb) sch in
+    map snd (rev (t_log s)) =
+    firstn (length (t_log s)) (results (run_calls M Blocking (linit (bcinit (bru_framer sep limit keep_end dec))) o
+                                                  (repeat None (na + nb)))).
+Proof.
+  intros P sep limit keep_end dec sizehint Hs Hl o na nb sch HG.
+  exact (lock_serialises_rel _ _ _ _ _ (bru_consumer_ok_rel sep limit keep_end dec sizehint Hs Hl) _
+           (bru_R_init sep limit keep_end dec Hs) o na nb sch HG).
 Qed.
 
 Lemma fx_threads_recv_sequence :
@@ -189,3 +220,15 @@ Section BFX.
       = map of_nres evs ++ [RecvAborted].
   Proof. intros o ts. exact (timeout_loses_nothing_rel M mode _ _ _ _ OK c0 R0 o ts I). Qed.
 End BFX.
+
+Lemma bfx_threads_recv_sequence :
+  forall (P : Type) (size : nat) (dec : decoder P) (sizehint : nat), 1 <= size ->
+  forall (o : oracle) (na nb : nat) (sch : list bool) (j : nat) (r : rres P),
+    nth_error (delivered (map snd (rev (t_log (trun (buf_machine (bfx_framer size dec) sizehint)
+                                               (tinit (bcinit (bfx_framer size dec)) o na nb) sch))))) j = Some r ->
+    r = expected (fst (fx_events size dec (stream_of o))) j.
+Proof.
+  intros P size dec sizehint Hs o na nb sch j r H.
+  exact (threads_recv_sequence_rel _ _ _ _ _ (bfx_consumer_ok_rel size dec sizehint Hs) _
+           (bfx_R_init size dec sizehint Hs) o na nb sch j r I H).
+Qed.
